@@ -1270,3 +1270,178 @@ def c15_r15(ctx):
     rets = [norm(r.value) for r in walk_no_nested(cm.node) if isinstance(r, ast.Return) and r.value is not None]
     ctx.check(bool(rets) and all(r in ("super().generate_client_module(module)", "super().generate_client_module(module=module)") for r in rets) and len([r for r in walk_no_nested(cm.node) if isinstance(r, ast.Return)]) == len(rets), key(cm, "returns"),
               f"every exit of generate_client_module hands the (rewritten) module on: {rets}", cm.loc(), okmsg="generate_client_module: every exit returns the module through the base hook")
+
+
+CFR_ = "contrib.client_forward_refs:ClientForwardRefsPlugin."
+
+
+@rule("C15.R16", "ClientForwardRefs: which imports are generated-package imports, which class a method instantiates, and what is moved into the method / under TYPE_CHECKING", min_instances=20)
+def c15_r16(ctx):
+    repo = ctx.repo
+    setitem = lambda c: is_name(c.func, "<setitem>") or is_name(c.func, "<setattr>") or (isinstance(c.func, ast.Attribute) and c.func.attr in ("add", "insert", "append"))
+    # (a) imported classes: only `from .x import Y` style imports of the generated package
+    st = repo.func(CFR_ + "_store_imported_classes")
+    nd = "<elem>(module_body)"
+
+    def mk(is_from=True, has_module=True, level1=True, dotted_=False, is_alias=True):
+        def atom(e):
+            t = str(norm(strip_pre(e)))
+            if t.endswith(", ast.ImportFrom)"):
+                return is_from if t.startswith("isinstance(") else (not is_from)
+            if t.endswith(".module is None"):
+                return not has_module
+            if t.endswith(".module is not None"):
+                return has_module
+            if t.endswith(".level != 1"):
+                return not level1
+            if t.endswith(".level == 1"):
+                return level1
+            if t.endswith(".module.startswith('.')"):
+                return dotted_ if not t.startswith("not ") else (not dotted_)
+            if t.endswith(", ast.alias)"):
+                return is_alias
+            return None
+        return atom
+    want = f"<setitem>(self.imported_classes, <elem>({nd}.names).name, '.' * {nd}.level + {nd}.module)"
+    for label, kwargs, rec in (("from .module import X", dict(), True), ("module text already dotted", dict(level1=False, dotted_=True), True), ("library import (level 0, no dot)", dict(level1=False, dotted_=False), False),
+                               ("plain `import x`", dict(is_from=False), False), ("from-import without module", dict(has_module=False), False)):
+        outs = [o for o in Interp(st, mk(**kwargs), is_effect=setitem).run() if any("loop body once" in t for t in o.trace)]
+        if rec:
+            outs = [o for o in outs if sum(1 for t in o.trace if "loop body once" in t) >= 2]
+        effs = [[norm(strip_pre(e)) for e in o.effects] for o in outs]
+        ctx.check(bool(effs) and all((e == [want]) if rec else (not e) for e in effs), key(st, label), f"[{label}] recorded {effs}; expected {'the class -> its dotted module' if rec else 'nothing'}: only classes of the generated "
+                  "package may be moved under TYPE_CHECKING / into methods", st.loc(), okmsg=f"_store_imported_classes: {label} -> {'recorded' if rec else 'ignored'}")
+    # (b) the call whose class a method instantiates
+    for fn, root in (("_get_call_arg_from_return", "return_stmt.value"), ("_get_call_arg_from_async_for", None)):
+        fi = repo.func(CFR_ + fn)
+        for shape in ("attribute of call", "call", "attribute of something else", "other"):
+            seen_x = {}
+
+            def atom(e, shape=shape, seen_x=seen_x):
+                t = str(norm(strip_pre(e)))
+                if t.startswith("isinstance(") and t.endswith(", ast.Attribute)"):
+                    seen_x["x"] = t[len("isinstance("):-len(", ast.Attribute)")]
+                    return shape in ("attribute of call", "attribute of something else")
+                if t.startswith("isinstance(") and t.endswith(", ast.Call)"):
+                    inner = t[len("isinstance("):-len(", ast.Call)")]
+                    x = seen_x.get("x")
+                    if x is not None and inner == x + ".value":
+                        return shape == "attribute of call"
+                    if x is not None and inner == x:
+                        return shape == "call"
+                    return None
+                if t.startswith("isinstance(") and (t.endswith(", list)") or t.endswith(", ast.Expr)") or t.endswith(", ast.Yield)")):
+                    return True
+                if t.startswith("not isinstance("):
+                    return False
+                return None
+            outs = [o for o in Interp(fi, atom).run() if o.kind == "return"]
+            vals = sorted({norm(strip_pre(o.value)) if o.value is not None else "None" for o in outs})
+            if shape == "attribute of call":
+                good = len(vals) == 1 and vals[0].endswith(".value.value") and vals[0] != "None"
+            elif shape == "call":
+                good = len(vals) == 1 and vals[0] != "None" and vals[0].endswith(".value") and not vals[0].endswith(".value.value.value.value")
+            else:
+                good = vals == ["None"]
+            ctx.check(good, key(fi, shape), f"{fn}[{shape}] returns {vals}: `Model.model_validate(data)` (a call) or `Model.model_validate(data).field` (ShorterResults: attribute of a call) give that call, "
+                      "anything else gives None", fi.loc(), okmsg=f"{fn}: {shape} -> {'the call' if shape != 'other' else 'None'}")
+    gc = repo.func(CFR_ + "_get_class_from_call")
+    for attr, name, wantv in ((True, True, "ast.alias(name=call.func.value.id)"), (False, False, "None"), (True, False, "None")):
+        outs = [o for o in Interp(gc, lambda e, attr=attr, name=name: (((attr if str(norm(strip_pre(e))).startswith("isinstance(") else not attr) if str(norm(strip_pre(e))).endswith("call.func, ast.Attribute)") else
+                                                                      (name if str(norm(strip_pre(e))).startswith("isinstance(") else not name) if str(norm(strip_pre(e))).endswith("call.func.value, ast.Name)") else None))).run() if o.kind == "return"]
+        vals = sorted({norm(strip_pre(o.value)) if o.value is not None else "None" for o in outs})
+        ctx.check(vals == [wantv], key(gc, f"attribute={attr} name={name}"), f"_get_class_from_call[func is an attribute={attr}, of a plain name={name}] gives {vals}, expected {wantv}", gc.loc(),
+                  okmsg=f"_get_class_from_call: attribute={attr} name={name} -> {wantv[:20]}")
+    # (c) the import moved into the method
+    ins = repo.func(CFR_ + "_insert_import_statement_in_method")
+
+    def mki(kind="Return", call=True, cls=True):
+        def atom(e):
+            t = str(norm(strip_pre(e)))
+            if t.startswith("isinstance(") and t.endswith(", ast.Return)"):
+                return kind == "Return"
+            if t.startswith("isinstance(") and t.endswith(", ast.AsyncFor)"):
+                return kind == "AsyncFor"
+            if t.endswith(" is None") and ("_get_class_from_call(" in t or t == "import_class is None"):
+                return not cls
+            if t.endswith(" is None") and ("_get_call_arg_from_" in t or t == "call is None"):
+                return not call
+            return None
+        return atom
+    for label, kwargs, acts in (("ends with return", dict(), True), ("ends with async for", dict(kind="AsyncFor"), True), ("ends with something else", dict(kind="Expr"), False),
+                               ("no call found", dict(call=False), False), ("call of something that is no class attribute", dict(cls=False), False)):
+        outs = Interp(ins, mki(**kwargs), is_effect=setitem).run()
+        effs = [[norm(strip_pre(e)) for e in o.effects] for o in outs]
+        if acts:
+            src = "self._get_call_arg_from_return(return_stmt=method_def.body[-1])" if kwargs.get("kind", "Return") == "Return" else "self._get_call_arg_from_async_for(last_stmt=method_def.body[-1])"
+            cl = f"self._get_class_from_call(call={src})"
+            want_e = [f"self.imported_in_method.add({cl}.name)", f"method_def.body.insert(0, ast.ImportFrom(module=self.imported_classes[{cl}.name], names=[{cl}], level=0))"]
+            good = bool(effs) and all(e == want_e for e in effs)
+        else:
+            good = bool(effs) and all(not e for e in effs)
+        ctx.check(good, key(ins, label), f"[method {label}] {effs[:1]}; expected {'the instantiated class recorded and imported (from its dotted module, level 0) as the first statement of the method' if acts else 'no change'}",
+                  ins.loc(), okmsg=f"_insert_import_statement_in_method: {label} -> {'import inserted' if acts else 'untouched'}")
+    # (d) which names leave the module level
+    ui = repo.func(CFR_ + "_update_imports")
+    outs = Interp(ui, lambda e: (False if str(norm(strip_pre(e))).startswith("len(") and str(norm(strip_pre(e))).endswith(" == 0") else True if str(norm(strip_pre(e))).startswith("len(") else None),
+                  is_effect=lambda c: norm(c.func) in ("self._update_existing_imports", "self._add_forward_ref_imports")).run()
+    good = bool(outs)
+    moved = "set(self.input_and_return_types) | self.imported_in_method - self.input_and_return_types"
+    from ..util import union_terms
+    for o in outs:
+        effs = [str(norm(strip_pre(subst(strip_pre(e), o.env, deep=True)))) for e in o.effects]
+        good = good and len(effs) == 2 and effs[0].startswith("self._update_existing_imports(") and effs[1].startswith("self._add_forward_ref_imports(") and "self._update_existing_imports(" in effs[1]
+        # the set handed over: all contributions to the local (initial value, `|=` / `.update` / rebinding), as union terms
+        arg = argv(strip_pre(o.effects[0]), 1, "return_types_not_used_as_input") if o.effects else None
+        terms = set()
+        if isinstance(arg, ast.Name):
+            for st_ in walk_no_nested(ui.node):
+                if isinstance(st_, ast.Assign) and any(isinstance(t_, ast.Name) and t_.id == arg.id for t_ in st_.targets):
+                    terms |= {t for t in union_terms(st_.value) if t != arg.id}
+                elif isinstance(st_, ast.AugAssign) and isinstance(st_.target, ast.Name) and st_.target.id == arg.id and isinstance(st_.op, ast.BitOr):
+                    terms |= set(union_terms(st_.value))
+                elif isinstance(st_, ast.Expr) and isinstance(st_.value, ast.Call) and norm(st_.value.func) == f"{arg.id}.update" and st_.value.args:
+                    terms |= set(union_terms(st_.value.args[0]))
+        elif arg is not None:
+            terms = set(union_terms(arg))
+        terms = {str(t).replace("(self.imported_in_method - self.input_and_return_types)", "self.imported_in_method - self.input_and_return_types") for t in terms}
+        good = good and terms in ({"set(self.input_and_return_types)", "self.imported_in_method - self.input_and_return_types"}, {"self.input_and_return_types", "self.imported_in_method - self.input_and_return_types"},
+                                  {"set(self.input_and_return_types)", "self.imported_in_method"}, {"self.input_and_return_types", "self.imported_in_method"})
+    ctx.check(good, key(ui, "moved names"), f"names leaving the module level must be: every input/return type plus every class imported inside a method; then the forward-ref imports are added after the kept imports: "
+              f"{[[norm(strip_pre(e))[:140] for e in o.effects] for o in outs][:1]}", ui.loc(), okmsg="_update_imports: moved = input/return types + method-local classes; forward-ref block added after the kept imports")
+    outs = Interp(ui, lambda e: (True if str(norm(strip_pre(e))).startswith("len(") and str(norm(strip_pre(e))).endswith(" == 0") else False if str(norm(strip_pre(e))).startswith("len(") else None),
+                  is_effect=lambda c: norm(c.func) in ("self._update_existing_imports", "self._add_forward_ref_imports")).run()
+    ctx.check(bool(outs) and all(not o.effects for o in outs), key(ui, "nothing to move"), "with nothing to move the module's imports are left alone", ui.loc(), okmsg="_update_imports: nothing to move -> untouched")
+    # (e) orchestration
+    gm = repo.func(CFR_ + "generate_client_module")
+    effo = lambda c: norm(c.func) in ("self._store_imported_classes", "self._rewrite_input_args_to_constants", "self._update_name_to_constant", "self._insert_import_statement_in_method", "self._update_imports") or is_name(c.func, "<setattr>")
+
+    def mko(has_class=True, returns=True):
+        def atom(e):
+            t = str(norm(strip_pre(e)))
+            if (t.startswith("not next(") or t in ("not client_class_def", "client_class_def is None")) or (t.startswith("next(") and t.endswith(" is None")):
+                return not has_class
+            if t.startswith("next(") and t.endswith(", None)") or t in ("client_class_def", "client_class_def is not None"):
+                return has_class
+            if t.endswith(", ast.ClassDef)"):
+                return has_class if t.startswith("isinstance(") else not has_class
+            if t.endswith(", ast.FunctionDef)") or t.endswith(", ast.AsyncFunctionDef)"):
+                return True
+            if t.endswith(".returns"):
+                return returns
+            return None
+        return atom
+    outs = Interp(gm, mko(has_class=False), is_effect=effo).run()
+    ctx.check(bool(outs) and all([dotted(strip_pre(e).func) for e in o.effects] == ["self._store_imported_classes"] and o.kind == "return" and str(norm(strip_pre(o.value))).startswith("super().generate_client_module(") for o in outs),
+              key(gm, "no client class"), f"without a client class nothing is rewritten: {[o.text()[:100] for o in outs]}", gm.loc(), okmsg="generate_client_module: no class -> handed on")
+    for returns in (True, False):
+        outs = [o for o in Interp(gm, mko(returns=returns), is_effect=effo).run() if o.kind == "return" and any("loop body once" in t for t in o.trace)]
+        good = bool(outs)
+        for o in outs:
+            seq = [dotted(strip_pre(e).func) if not is_name(strip_pre(e).func, "<setattr>") else "returns=" + ("_update_name_to_constant" if "_update_name_to_constant(" in norm(strip_pre(e)) else "?") for e in o.effects]
+            seq = [x for x in seq if x not in ("self._update_name_to_constant",)]
+            want_seq = ["self._store_imported_classes", "self._rewrite_input_args_to_constants"] + (["returns=_update_name_to_constant"] if returns else []) + ["self._insert_import_statement_in_method", "self._update_imports"]
+            good = good and seq == want_seq and str(norm(strip_pre(o.value))).startswith("super().generate_client_module(")
+        ctx.check(good, key(gm, f"method returns={returns}"), f"[method with return annotation={returns}] steps {[[dotted(strip_pre(e).func) for e in o.effects] for o in outs][:1]}; expected: imports recorded, arguments rewritten, "
+                  f"{'return annotation rewritten, ' if returns else ''}import moved into the method, module imports updated, module handed on", gm.loc(),
+                  okmsg=f"generate_client_module: per method (returns={returns}) all steps in order")
